@@ -29,6 +29,6 @@ META = dict(
     design_ref="DESIGN.md §6 C02",
     note="Trusted: Lean kernel + 3 standard axioms; correspondence generators; Int for Go int. Known finding: bulk copies whose source and "
          "destination overlap in one storage (memmove fast path vs element-wise path) — scope ND:overlap.",
-    technique="Lean 4 proof (mixed radix, contiguity invariant, list folds) + differential correspondence model vs real code",
+    technique="Lean 4 proof (mixed radix, contiguity invariant, list folds) + differential correspondence model vs real code + model regenerated from the Go source on every run by a translator (gen_eq_* theorems tie it to the hand-written model)",
 )
 READY = True
